@@ -442,8 +442,11 @@ class PooledClient(Entity):
                 delay,
             )
 
-            # Wait for retry delay
-            yield delay
+            # Wait for retry delay.  The pool's idle-timeout event created by
+            # release() is handed to the engine now: holding it back until after
+            # the delay would emit it in the past whenever the retry delay
+            # exceeds the pool's idle timeout (the engine then drops it).
+            yield delay, release_events
 
             # Create retry event
             retry_event = Event(
@@ -462,10 +465,7 @@ class PooledClient(Entity):
                 },
             )
 
-            all_events = [retry_event]
-            if release_events:
-                all_events.extend(release_events)
-            return all_events
+            return [retry_event]
 
         # No more retries - fail the request
         self._in_flight.pop(flight_key)
